@@ -141,7 +141,7 @@ impl Check for C02 {
         tier.pick(std::time::Duration::from_secs(200), std::time::Duration::from_secs(1500))
     }
     fn required_counters(&self, _tier: Tier) -> Vec<&'static str> {
-        vec!["restarts", "torn-variants", "every-prefix-cases", "must-serve-keys", "must-be-absent-keys", "full-store-restarts", "root-used-before-by-another-network-version", "largest-record-restarts", "realnet:nodes-restarted"]
+        vec!["restarts", "torn-variants", "every-prefix-cases", "must-serve-keys", "must-be-absent-keys", "full-store-restarts", "root-used-before-by-another-network-version", "largest-record-restarts"]
     }
     fn lane_cases(&self, tier: Tier) -> u64 {
         tier.pick(8, 64)
